@@ -302,7 +302,7 @@ class Ref:
             if len(kinds) > 1:
                 raise RefError("TypeError", "mixed term kinds")
             kind = kinds.pop()
-        ws, wz = 0.0, 0.0
+        ws, wz, zmax = 0.0, 0.0, 0.0
         for tn, w in g.items():
             t = terms[tn]
             if kind == "Tsukamoto":
@@ -323,11 +323,13 @@ class Ref:
                     continue
             wz += w * z
             ws += w
+            if math.isfinite(z):
+                zmax = max(zmax, abs(z) * (max(1.0, w) if dz["cls"] == "WeightedSum" else 1.0))
         if dz["cls"] == "WeightedAverage":
             val = wz / ws if ws != 0.0 else NAN
         else:
             val = wz if ws != 0.0 else NAN
-        return val, {"kind": kind, "weights": g}
+        return val, {"kind": kind, "weights": g, "zmax": zmax * (max(1, len(g)) if dz["cls"] == "WeightedSum" else 1)}
 
     # ---- whole pipeline ----
     def process(self, row, prev=None):
@@ -395,9 +397,10 @@ class _G(dict):
 # ------------------------------------------------------------------------------------------------
 def integral(cls, xs, ys):
     """Reference integral defuzzifiers on the sampled set (xs midpoints, ys membership)."""
-    if any(math.isnan(y) for y in ys):
-        # NaN membership cannot come from the documented pipeline (degrees are nan_to_num'ed, x finite)
-        raise Undefined("NaN membership sample")
+    if any(not math.isfinite(y) for y in ys):
+        # non-finite membership samples only arise from degrees > 1 (UnboundedSum) fed to quotient norms:
+        # the documented defuzzifiers say nothing about such sets
+        raise Undefined("non-finite membership sample")
     if cls == "Centroid":
         s = math.fsum(ys)
         if s == 0.0:
@@ -429,3 +432,18 @@ def integral(cls, xs, ys):
     if cls == "MeanOfMaximum":
         return sum(tight) / len(tight), inf
     raise KeyError(cls)
+
+
+def integral_agree(cls, got, want, info, lo, hi):
+    """'ok' | 'tie' (accepted through the loose tie set) | 'bad'."""
+    if math.isnan(want) or math.isnan(got):
+        return "ok" if (math.isnan(want) and math.isnan(got)) else "bad"
+    scale = max(abs(lo), abs(hi)) + (hi - lo)
+    if cls == "Centroid":
+        return "ok" if abs(got - want) <= 1e-9 * scale else "bad"
+    if abs(got - want) <= 1e-12 * scale:
+        return "ok"
+    loose = info.get("loose")
+    if loose and info.get("tie") and loose[0] - 1e-12 * scale <= got <= loose[1] + 1e-12 * scale:
+        return "tie"
+    return "bad"
